@@ -16,7 +16,7 @@ FUNCTIONS = ["distance3d.aabb_tree.AabbTree.insert_aabbs", "AabbTree.insert_aabb
              "AabbTree.overlaps_aabb_tree", "AabbTree.get_root_aabb", "insert_aabbs", "insert_leaf",
              "fix_upward_tree", "query_overlap", "query_overlap_of_other_tree", "aabb_overlap (summarised from its own paths)",
              "_merge_aabb", "_sort_aabbs", "all_aabbs_overlap"]
-STUBS = ["_aabb_volume -> uninterpreted value constrained by its contract: >= 0 and monotone under box inclusion (contract discharged on the real function in family volume_contract)",
+STUBS = ["_aabb_volume -> uninterpreted value constrained by its contract: >= 0, zero iff an extent is zero, monotone under box inclusion and strictly so away from zero volume (contract discharged on the real function in family volume_contract)",
          "np.random.shuffle -> arbitrary permutation (fork over all)",
          "aabb_overlap -> disjunction of the true-paths of the real function explored on placeholders"]
 OUTSIDE = ["more than 5 boxes in total; more than 3 batches", "floating-point rounding"]
@@ -49,9 +49,19 @@ def _install_stubs():
         def incl(x, y):
             return z3.And(*[z3.And(core.lift(y[k, 0]) <= core.lift(x[k, 0]), core.lift(x[k, 1]) <= core.lift(y[k, 1]))
                             for k in range(3)])
+        ext0 = z3.Or(*[core.lift(aabb[k, 1]) == core.lift(aabb[k, 0]) for k in range(3)])
+        eng.side.append((v == 0) == ext0)                      # zero volume iff some extent is zero
+
+        def same(x, y):
+            return z3.And(*[z3.And(core.lift(y[k, 0]) == core.lift(x[k, 0]), core.lift(x[k, 1]) == core.lift(y[k, 1]))
+                            for k in range(3)])
         for bb, w in vols:
             eng.side.append(z3.Implies(incl(aabb, bb), v <= w))
             eng.side.append(z3.Implies(incl(bb, aabb), w <= v))
+            # strict monotonicity away from zero volume
+            eng.side.append(z3.Implies(z3.And(incl(aabb, bb), v == w), z3.Or(same(aabb, bb), w == 0)))
+            eng.side.append(z3.Implies(z3.And(incl(bb, aabb), v == w), z3.Or(same(aabb, bb), v == 0)))
+            eng.side.append(z3.Implies(same(aabb, bb), v == w))
         vols.append((aabb.copy(), v))
         if len(eng.trace) >= len(eng.prefix):
             eng.model = None
@@ -135,7 +145,8 @@ class TreeScenario(Scenario):
     budget_s = 300
     check_definedness = False
 
-    def __init__(self, batches, other=0, single_inserts=False):
+    def __init__(self, batches, other=0, single_inserts=False, realvol=False):
+        self.realvol = realvol
         self.batches = [tuple(b) for b in batches]
         self.n = sum(b[0] for b in self.batches)
         self.other = other
@@ -157,6 +168,8 @@ class TreeScenario(Scenario):
         import distance3d.aabb_tree as T
         if cx.symbolic:
             _install_stubs()
+            if self.realvol:
+                T._aabb_volume = _SUMMARY["real_volume"]      # the real product of extents (degree 3)
         tree = T.AabbTree()
         j = 0
         payload_of_insert = []     # insertion counter -> input box id
@@ -314,12 +327,16 @@ class VolumeContract(Scenario):
         incl = AND(*[AND(b[k][0] <= a[k][0], a[k][1] <= b[k][1]) for k in range(3)])
         ob.require("volume_nonneg", exact=AND(out[0] >= 0, out[1] >= 0))
         ob.require("volume_monotone", exact=OR(NOT(incl), out[0] <= out[1]))
+        ext0 = OR(*[a[k][0] == a[k][1] for k in range(3)])
+        same = AND(*[AND(a[k][0] == b[k][0], a[k][1] == b[k][1]) for k in range(3)])
+        ob.require("volume_zero_iff_flat", exact=AND(OR(NOT(out[0] == 0), ext0), OR(NOT(ext0), out[0] == 0)))
+        ob.require("volume_strictly_monotone", exact=OR(NOT(AND(incl, out[0] == out[1])), same, out[1] == 0))
 
 
 def make(family, args):
     if family == "volume_contract":
         return VolumeContract()
-    return TreeScenario(args["batches"], args.get("other", 0), args.get("single", False))
+    return TreeScenario(args["batches"], args.get("other", 0), args.get("single", False), args.get("realvol", False))
 
 
 def _compositions(n, kmax):
